@@ -74,6 +74,8 @@ def tasks(tier, seed):
             out.append({"fn": "loader", "kwargs": {"ish": list(ish), "osh": list(osh), "stamped": stamped}, "label": f"loader/{ish[0]}x{ish[1]},{osh[0]}x{osh[1]}/{'stamped' if stamped else 'no_stamp'}"})
     for i in range(0, len(FORMAT_CASES), 6):
         out.append({"fn": "formats_witness", "kwargs": {"cases": [list(c) for c in FORMAT_CASES[i:i + 6]]}, "label": f"witness/formats/{i // 6}", "kind": "direct"})
+    for i in range(0, len(TABLE_CASES), 6):
+        out.append({"fn": "tables_witness", "kwargs": {"cases": [list(c) for c in TABLE_CASES[i:i + 6]]}, "label": f"witness/tables/{i // 6}", "kind": "direct"})
     return out
 
 
@@ -366,6 +368,60 @@ def _format_case(fmt, dt, variant=0):
     return same, {"format": fmt, "dtype": dt, "stored": arr.tolist(), "read_back": back.tolist(), "read_back_dtype": str(back.dtype)}
 
 
+SEPS = {"tab": "\t", "space": " ", "comma": ",", "bar": "|", "semicolon": ";"}
+TABLE_CASES = [(sep, kind) for sep in SEPS for kind in ("plain", "holes", "holes_end", "empty_col")] + [("npy", "plain"), ("npy", "holes")]
+
+
+def _table_case(sep, kind, ext, variant=0):
+    """A table written by the standard writer (pandas to_csv with the delimiter / numpy save) and read back with pyxel.inputs.load_table:
+    same shape and values, missing values included."""
+    import numpy as np
+    import pandas as pd
+
+    from pyxel.inputs import load_table
+
+    a = np.array([[1.0, 2.5, 3.0], [4.0, 0.1, 6.0], [7.0, 8.0, 1e-30], [123456.789, -1.5, 65535.0]])
+    a = np.roll(a, variant, axis=0)
+    if kind == "holes":
+        a[1, 1] = a[2, 0] = np.nan
+    elif kind == "holes_end":
+        a[1, 2] = a[3, 2] = np.nan
+    elif kind == "empty_col":
+        a[:, 1] = np.nan
+    tmp = tempfile.mkdtemp(prefix="vx_c20_")
+    path = os.path.join(tmp, "table." + ext)
+    try:
+        if sep == "npy":
+            path = os.path.join(tmp, "table.npy")
+            np.save(path, a)
+        else:
+            pd.DataFrame(a).to_csv(path, sep=SEPS[sep], header=False, index=False, float_format="%.17g")
+        try:
+            back = load_table(path).to_numpy()
+            err = None
+        except Exception as e:  # noqa: BLE001
+            back, err = None, f"{type(e).__name__}: {str(e)[:100]}"
+    finally:
+        import shutil
+
+        shutil.rmtree(tmp, ignore_errors=True)
+    same = back is not None and back.shape == a.shape and bool(np.array_equal(back.astype(float), a, equal_nan=True))
+    return same, {"delimiter": sep, "table": kind, "extension": ext, "stored": a.tolist(), "read_back": None if back is None else back.tolist(), "error": err}
+
+
+def tables_witness(tier, seed, cases):
+    """Tables of the first sentence (text delimited by tab, space, comma, bar or semicolon; npy): concrete witness layer over delimiters,
+    extensions and missing-value layouts."""
+    obligations = []
+    for sep, kind in cases:
+        for ext in (("txt",) if sep == "npy" else ("txt", "csv", "data")):
+            for variant in range(1 if tier == "quick" else 4):
+                same, info = _table_case(sep, kind, ext, variant + seed)
+                obligations.append({"id": f"C20/tables/roundtrip/{sep},{kind},{ext}", "verdict": "unsat" if same else "sat", "info": info,
+                                    "model": {"sep": sep, "kind": kind, "ext": ext, "variant": variant + seed}, "observed": {}})
+    return {"obligations": obligations, "paths": len(obligations), "reached": {o["id"]: 1 for o in obligations}}
+
+
 def formats_witness(tier, seed, cases):
     """First sentence of the statement (same shape and values after a write / read cycle): the decoders are C / third-party code, so this
     is a concrete witness layer - boundary values of every integer width and awkward doubles, written by the standard writer."""
@@ -413,6 +469,9 @@ def replay(oid, kwargs, model, data):
         return (ok != overlap) or (ok and not np.array_equal(out, exp)), {"offset_yx": [py, px], "input": a.tolist(), "placed": None if out is None else np.asarray(out).tolist(), "expected": exp.tolist() if overlap else "rejected"}
     if data["fn"] == "formats_witness":
         same, info = _format_case(model["fmt"], model["dtype"], int(model["variant"]))
+        return (not same), info
+    if data["fn"] == "tables_witness":
+        same, info = _table_case(model["sep"], model["kind"], model["ext"], int(model["variant"]))
         return (not same), info
 
     from pyxel.util import fit_into_array
